@@ -610,6 +610,22 @@ func (e *Engine) RunHarness(fn *ssa.Function) *HarnessResult {
 		jobs = 1
 	}
 	var wg sync.WaitGroup
+	stopProgress := make(chan struct{})
+	if os.Getenv("GOSYM_PROGRESS") != "" {
+		go func() {
+			for {
+				select {
+				case <-stopProgress:
+					return
+				case <-time.After(5 * time.Second):
+					e.mu.Lock()
+					fmt.Fprintf(os.Stderr, "[progress %s] paths=%d work=%d active=%d ends=%v\n", fn.Name(), e.res.Paths, len(e.work), e.active, e.res.PathEnds)
+					e.mu.Unlock()
+				}
+			}
+		}()
+	}
+	defer close(stopProgress)
 	for j := 0; j < jobs; j++ {
 		wg.Add(1)
 		go func() {
@@ -645,7 +661,17 @@ func (e *Engine) RunHarness(fn *ssa.Function) *HarnessResult {
 			for k := range w.assumptions {
 				e.res.Assumptions[k] = true
 			}
-			e.res.InitProblems = append(e.res.InitProblems, w.initProblems...)
+			for _, ip := range w.initProblems {
+				dup := false
+				for _, o := range e.res.InitProblems {
+					if o == ip {
+						dup = true
+					}
+				}
+				if !dup {
+					e.res.InitProblems = append(e.res.InitProblems, ip)
+				}
+			}
 			e.mu.Unlock()
 		}()
 	}
@@ -663,6 +689,8 @@ func (w *Worker) closeSolvers() {
 }
 
 func (w *Worker) runPath(fn *ssa.Function, prefix []Decision) {
+	pathT0 := time.Now()
+	q0 := w.S.Queries
 	w.prefix = prefix
 	w.pos = 0
 	w.trace = w.trace[:0]
@@ -735,7 +763,7 @@ func (w *Worker) runPath(fn *ssa.Function, prefix []Decision) {
 	}
 	w.E.mu.Unlock()
 	if w.E.Cfg.Verbose {
-		fmt.Fprintf(os.Stderr, "path %v -> %s (%d steps)\n", fmtDecisions(w.trace), outcome, w.steps)
+		fmt.Fprintf(os.Stderr, "path %v -> %s (%d steps, %d terms, %v, %d queries)\n", fmtDecisions(w.trace), outcome, w.steps, len(w.T.terms), time.Since(pathT0).Round(time.Millisecond), w.S.Queries-q0)
 	}
 }
 
